@@ -111,7 +111,7 @@ class World(object):
 
 
 def run(body, prefix=(), tracing=False, horizon=20000, expect=None,
-        seed=0, visited=None, budget=0, **netkw):
+        seed=0, visited=None, budget=0, lenient=False, **netkw):
     """Execute body(World) as the driver; returns pysched.Execution."""
     setup()
 
@@ -121,7 +121,7 @@ def run(body, prefix=(), tracing=False, horizon=20000, expect=None,
         W = World(S, **netkw)
         return body(W)
     return pysched.run_execution(driver, prefix, tracing, horizon, expect,
-                                 visited, budget)
+                                 visited, budget, lenient)
 
 
 def describe(packet):
